@@ -1354,9 +1354,16 @@ def guard_branch_case(seed_str):
                       task("checkFlags", tb, gb, "FlagsYes", "FlagsNo"), task("checkTank", tn, gn, "TankYes", "TankNo")]}
     lm = {}
     text = gen_check.render(prog, None, lm)
+    spelling = rng.choice(["plain", "plain", "zeros"])
+    if spelling == "zeros":
+        # INTEGER: [0-9]+ and FLOAT: INTEGER '.' INTEGER admit leading zeros: 01, 007, 00.5 denote 1, 7, 0.5
+        # (the program contains no digits outside the guards)
+        pad = rng.choice(["0", "00"])
+        text = re.sub(r"(?<![\w.])(\d+(?:\.\d+)?)", lambda m: pad + m.group(1), text)
     expect = sorted(["FlagsYes" if _eval_guard(gb, vb) else "FlagsNo", "TankYes" if _eval_guard(gn, vn) else "TankNo"])
     return {"prog": prog, "text": text, "lm": lm,
             "meta": {"family": "guard-branch", "seed": seed_str, "expect": expect, "attr": attr, "nested": nested,
+                     "spelling": spelling,
                      "values": {"checkFlags": vb, "checkTank": [vn.numerator, vn.denominator]}}}
 
 
@@ -1400,6 +1407,65 @@ def drive_guard_branch(args):
     return {"exc": None, "branches": sorted(x for x in started if x.endswith(("Yes", "No")))}
 
 
+def long_while_case(seed_str):
+    """one activation of a While loop whose guard stays true for `passes` evaluations (one service per
+    pass) and is false afterwards: exactly `passes` passes, then the statement after the loop"""
+    from fractions import Fraction
+    rng = random.Random(seed_str)
+    passes = rng.choice([65, 66, 70, 97, 128, 150])
+    form = rng.choice(["lt", "sum", "ne"])
+    P = faults.P
+    N = ("num", Fraction(passes))
+    guard = {"lt": ("bin", "<", P("x", "done"), N),
+             "sum": ("bin", "<=", ("bin", "+", P("x", "done"), ("num", Fraction(1))), P("x", "wanted")),
+             "ne": ("bin", "!=", P("x", "done"), N)}[form]
+    NUM = ("plain", "number")
+    prog = {"structs": [{"name": "Progress", "attrs": [("done", NUM), ("wanted", NUM)]}],
+            "tasks": [{"name": "productionTask", "ins": [], "outs": [],
+                       "body": [("service", "Begin", [], [("x", ("plain", "Progress"))]),
+                                ("while", guard, [("service", "Step", [], [("x", ("plain", "Progress"))])]),
+                                ("service", "After", [], [])]}]}
+    lm = {}
+    text = gen_check.render(prog, None, lm)
+    return {"prog": prog, "text": text, "lm": lm,
+            "meta": {"family": "long-while", "seed": seed_str, "passes": passes, "form": form}}
+
+
+def drive_long_while(args):
+    """-> dict(exc, steps, after): how often the body ran, whether the statement after the loop started"""
+    text, meta = args
+    import contextlib
+    import io
+    from pfdl_scheduler.scheduler import Scheduler
+    from pfdl_scheduler.scheduling.event import Event
+    from pfdl_scheduler.model.struct import Struct
+    started, pending, finished = [], [], []
+
+    def var(name, ctx):
+        return Struct(attributes={"done": finished.count("Step"), "wanted": meta["passes"]})
+
+    def on_ss(api):
+        started.append(api.service.name)
+        pending.append((api.uuid, api.service.name))
+    try:
+        with contextlib.redirect_stdout(io.StringIO()):
+            s = Scheduler(text, True, False)
+            if not s.pfdl_file_valid:
+                return {"exc": "invalid", "steps": 0, "after": 0}
+            s.register_callback_service_started(on_ss)
+            s.register_variable_access_function(var)
+            s.start()
+            n = 0
+            while pending and n < 400:
+                n += 1
+                u, name = pending.pop(0)
+                finished.append(name)
+                s.fire_event(Event("service_finished", {"service_uuid": u}))
+    except Exception as e:  # noqa: BLE001
+        return {"exc": type(e).__name__, "steps": started.count("Step"), "after": started.count("After")}
+    return {"exc": None, "steps": started.count("Step"), "after": started.count("After")}
+
+
 def guard_branch_slice(pid, n, seed, workdir, rep, stats):
     """usable from any property's slice (C09 here; C13 can call it the same way): returns nothing,
     records violations through rep"""
@@ -1415,6 +1481,18 @@ def guard_branch_slice(pid, n, seed, workdir, rep, stats):
             rep.violation(p)
         else:
             stats["branch_as_expected"] += 1
+    lw = [long_while_case("%d/%s/longwhile/%d" % (seed, pid, i)) for i in range(max(2, n // 15))]
+    with ProcessPoolExecutor(max_workers=4, initializer=_init_worker, initargs=(workdir,)) as ex:
+        results = list(ex.map(drive_long_while, [(c["text"], c["meta"]) for c in lw]))
+    for c, r in zip(lw, results):
+        stats["generated"] += 1
+        stats["family:long-while"] += 1
+        if r["exc"] is not None or r["steps"] != c["meta"]["passes"] or r["after"] != 1:
+            rep.violation(payload(pid, c, "C13-long-while",
+                                  "the loop body ran %d times and the statement after the loop started %d times; the guard "
+                                  "is true for exactly %d evaluations (%s)" % (r["steps"], r["after"], c["meta"]["passes"], r["exc"])))
+        else:
+            stats["while_passes_as_expected"] += 1
 
 
 RUN_SHAPES = [("D12b-guard-type-unchecked", "sh_bad_guard", True)]
@@ -1498,6 +1576,10 @@ def replay(pid, cfg, p, workdir):
     if mon == "C13-branch":      # a run-time monitor: no validator model involved
         r = drive_guard_branch((c["text"], c["meta"]))
         bad = r["exc"] is not None or r["branches"] != c["meta"]["expect"]
+        return {"fails": bad, "why": str(r)}
+    if mon == "C13-long-while":
+        r = drive_long_while((c["text"], c["meta"]))
+        bad = r["exc"] is not None or r["steps"] != c["meta"]["passes"] or r["after"] != 1
         return {"fails": bad, "why": str(r)}
     evaluate([c], workdir, tag="replay")
     if c["diff"] and c["model"]["status"] not in ("fuel", "unsupported"):
